@@ -1,4 +1,5 @@
 """Generic canonical fingerprints of live object graphs (no private attribute names)."""
+import collections
 import enum
 import hashlib
 import logging
@@ -97,7 +98,7 @@ def canon_tokens(root, skip_keys=SKIP_KEYS, tnorm=None):
                 w(v)
             ap("}")
             return
-        if isinstance(o, (list, tuple)):
+        if isinstance(o, (list, tuple, collections.deque)):
             ap("[")
             for v in o:
                 w(v)
